@@ -1,4 +1,65 @@
-import ZbossModel.Host
+import ZbossModel.Proofs.Host
+/-! # C11 - any request reaches the NCP intact, fragments contiguous, each awaiting its ACK
+
+Phases `sendfrag … acked` are the transmission of a message: from taking the message lock M to
+releasing it after the last fragment's ACK wait ended. -/
 namespace Zboss.Host
-theorem C11_placeholder : True := trivial
+
+/-- **one transmitter, every history**: at most one request is inside the transmission of its message -
+    the fragments of one message cannot be interleaved with data frames of another -/
+theorem C11_one_transmitter (evs : List Ev) (r1 r2 : Req) (h1 : r1 ∈ (runEvents {} evs).1.reqs)
+    (h2 : r2 ∈ (runEvents {} evs).1.reqs) (t1 : inTransmit r1.phase = true) (t2 : inTransmit r2.phase = true) :
+    r1 = r2 := by
+  have hinv := inv2_reachable evs
+  have a1 := (hinv.2 r1 h1).1 .M ((hinv.2 r1 h1).2.1 t1)
+  have a2 := (hinv.2 r2 h2).1 .M ((hinv.2 r2 h2).2.1 t2)
+  rw [a1] at a2
+  exact unique_of_id _ hinv.1 r1 r2 h1 h2 (by simpa using a2)
+
+/-- at most one request awaits an acknowledgement (it is the holder of the transmit lock) -/
+theorem C11_one_awaiting_ack (evs : List Ev) (r1 r2 : Req) (h1 : r1 ∈ (runEvents {} evs).1.reqs)
+    (h2 : r2 ∈ (runEvents {} evs).1.reqs) (t1 : ackPhase r1.phase = true) (t2 : ackPhase r2.phase = true) :
+    r1 = r2 := by
+  have hinv := inv2_reachable evs
+  have a1 := (hinv.2 r1 h1).1 .T ((hinv.2 r1 h1).2.2.1 t1)
+  have a2 := (hinv.2 r2 h2).1 .T ((hinv.2 r2 h2).2.2.1 t2)
+  rw [a1] at a2
+  exact unique_of_id _ hinv.1 r1 r2 h1 h2 (by simpa using a2)
+
+/-- whoever awaits an acknowledgement is inside its own message: the transmit lock is only taken under the
+    message lock -/
+theorem C11_ack_wait_inside_message (p : Phase) (h : ackPhase p = true) : inTransmit p = true := by
+  cases p <;> simp [ackPhase, inTransmit] at h ⊢
+
+/-- task steps write nothing but data frames and report nothing but completions; they never touch the
+    sequence number, the clock, the open / transport flags -/
+theorem C11_task_steps_frame (fuel : Nat) (st : St) : Frame st (settle fuel st) := frame_settle fuel st
+
+/-- a fragment goes on the wire only from phase `waitT`, i.e. by the request that holds the message lock, and
+    the request then waits for the ACK with a deadline one ACK timeout ahead -/
+theorem C11_write_step (st : St) (i : Nat) (r : Req) (fuel : Nat) (hg : getReq st i = some r) (hp : r.phase = .waitT)
+    (hok : (acquire st .T i).2 = true) (htr : (acquire st .T i).1.transport = true) :
+    (runReq (fuel + 1) st i).out = st.out ++ [.write i r.frag st.pack r.nfrags] := by
+  have hf := frame_acquire st .T i
+  unfold runReq
+  simp only [hg, hp]
+  generalize hacq : acquire st .T i = a at hok htr hf
+  obtain ⟨st', ok⟩ := a
+  simp only [] at hok htr hf ⊢
+  obtain ⟨extra, hex, _⟩ := hf.out
+  have hout : st'.out = st.out := by
+    -- `acquire` emits nothing
+    have : (acquire st .T i).1.out = st.out := by
+      unfold acquire; simp only []
+      generalize (if (queue st .T).contains i = true then queue st .T else queue st .T ++ [i]) = q'
+      by_cases hc : q'.head? = some i <;> simp [hc, updReq, setQueue]
+    rw [hacq] at this; exact this
+  simp only [hok, Bool.not_true, Bool.false_eq_true, if_false, htr, if_true, updReq, emit, hout, hf.pack]
+
+/-! ## non-vacuity: two concurrent two-fragment requests - the D9 scenario of the pinned tree: the wire
+    order is first(1), last(1), first(2), last(2) -/
+example : ((runEvents {} [.start 1 4 false 2 3013, .start 2 4 false 2 5026, .rxAck 0, .rxAck 1, .rxAck 2, .rxAck 3]).2.map
+    fun l => l.filter isWD) =
+    [[.write 1 0 0 2], [], [.write 1 1 1 2], [.write 2 0 2 2], [.write 2 1 3 2], []] := by decide +kernel
+
 end Zboss.Host
